@@ -1,4 +1,5 @@
 import Driver.Util
 import Driver.Session
 import Driver.Credit
+import Driver.RecvCredit
 import Driver.Main
